@@ -464,7 +464,7 @@ def make_defect(rng, e, which):
     return e
 
 
-def gen_ops(rng: random.Random, n: int):
+def gen_ops(rng: random.Random, n: int, share=lambda x: x):
     """(store, op, now) triples; every import defect is placed at every entry position"""
     count = 0
     # boundary shapes first
@@ -476,7 +476,7 @@ def gen_ops(rng: random.Random, n: int):
         ([["a", 1965, 1, 10, 10]], {"kind": "import", "merge": True, "entries": [{"host": "a", "port": 1965, "fp": 2, "first": 70}], "cb": "r"}),
         ([["a", 1965, 1, 10, 10], ["a", 1966, 2, 20, 20], ["b", 1965, 3, 30, 30]], {"kind": "revokehost", "host": "a"}),
     ]
-    for st, op in first:
+    for st, op in share(first):
         yield {"store": st, "op": op, "now": 500}
         count += 1
     while count < n:
@@ -536,7 +536,7 @@ class TxnFamily(Family):
 
     def gen(self, rng, n):
         i = 0
-        for c in gen_ops(rng, n):
+        for c in gen_ops(rng, n, self.share):
             if i >= n:
                 break
             i += 1
